@@ -351,6 +351,48 @@ mod verif_bounded_mdk {
             for i in [x, y] { if members.contains(&uks[i].public_key()) { panic!("BOUNDED-COUNTEREXAMPLE {label}: scenario [history: {scen}] the removed user u{i} is still a member on alice's side"); } }
         }
     }
+    // C04: rumors a (malicious) member can encrypt -- another member's pubkey in the rumor, the pre-set id of an existing message of
+    // another member over different content -- and a captured ciphertext replayed in a fresh wrapper: none of them creates, replaces,
+    // re-attributes or alters a stored message, and the replay produces no second copy. Both bystanders answer alike (checked by deliver).
+    // Scope: one honest message, three hostile events by member bob, one re-wrapped replay; each delivered twice.
+    #[test]
+    fn hostile_rumors_history() {
+        use nostr::{EventBuilder, Kind};
+        let label = "mdk_backends_bounded.hostile_rumors_history";
+        let mut w = setup();
+        let honest = w.alice_msg(label, "alice's message");
+        let stored = |m: &Vec<mdk_storage_traits::messages::types::Message>| -> Vec<(String, String, String, u64)> {
+            let mut v: Vec<_> = m.iter().map(|x| (x.id.to_hex(), x.pubkey.to_hex(), x.content.clone(), x.created_at.as_secs())).collect(); v.sort(); v
+        };
+        let before_m = stored(&w.mem.get_messages(&w.gid, None).unwrap());
+        let before_s = stored(&w.sql.get_messages(&w.gid, None).unwrap());
+        let alice_id = w.mem.get_messages(&w.gid, None).unwrap()[0].id;
+        let mut hostile: Vec<(String, Event)> = vec![];
+        // (1) bob encrypts a rumor that names ALICE as its author
+        // (the sending client's own checks are bypassed: the hostile member encrypts and wraps the rumor with the library's internal steps)
+        let forge = |w: &World, mut rumor: nostr::UnsignedEvent| -> Event {
+            let mut g = w.b.load_mls_group(&w.gid).unwrap().unwrap();
+            let payload = w.b.create_mls_message_payload(&mut g, &mut rumor).unwrap();
+            w.b.build_message_event(&w.gid, payload).unwrap()
+        };
+        hostile.push(("bob sends a rumor whose pubkey field is alice's".into(), forge(&w, create_test_rumor(&w.ak, "forged as alice"))));
+        // (2) bob encrypts his own rumor with the pre-set id of alice's stored message (different content)
+        let mut r = create_test_rumor(&w.bk, "overwrite attempt"); r.id = Some(alice_id);
+        hostile.push(("bob sends his own rumor with the pre-set id of alice's stored message".into(), forge(&w, r)));
+        // (3) bob encrypts a rumor naming alice AND carrying the id of her stored message
+        let mut r = create_test_rumor(&w.ak, "overwrite attempt as alice"); r.id = Some(alice_id);
+        hostile.push(("bob sends a rumor with alice's pubkey and the id of her stored message".into(), forge(&w, r)));
+        // (4) alice's captured ciphertext in a fresh wrapper (new ephemeral key, new event id, same content and tags)
+        let rewrapped = EventBuilder::new(Kind::MlsGroupMessage, honest.content.clone()).tags(honest.tags.iter().cloned()).sign_with_keys(&Keys::generate()).unwrap();
+        hostile.push(("alice's ciphertext is replayed in a fresh wrapper".into(), rewrapped));
+        for round in 0..2 { for (what, e) in &hostile {
+            w.deliver(label, &format!("{what}{}", if round == 1 { " (again)" } else { "" }), e);
+            let (now_m, now_s) = (stored(&w.mem.get_messages(&w.gid, None).unwrap()), stored(&w.sql.get_messages(&w.gid, None).unwrap()));
+            for (who, before, now) in [("memory-backed", &before_m, &now_m), ("SQLite-backed", &before_s, &now_s)] {
+                if before != now { panic!("BOUNDED-COUNTEREXAMPLE {label}: scenario [history: {}] the stored messages (id, author, content, created_at) of the {who} client changed: before {before:?} / now {now:?}", w.log.join(" ; ")); }
+            }
+        }}
+    }
     // C05: a commit that a NON-admin member builds directly with the MLS library (bypassing the client-side admin gate) and that does
     // more than refresh its author's own key -- a group-data rewrite making the author an admin, a removal, an add -- is refused by
     // both bystanders and leaves them exactly as they were. Scope: one hostile member, three crafted commits, each delivered twice.
